@@ -4,6 +4,7 @@ mod c06;
 mod c08;
 mod c09;
 mod c10;
+mod c12;
 mod c15;
 mod c16;
 mod c18;
@@ -43,6 +44,7 @@ fn main() {
         "C08" => c08::run(&args, &mut rep),
         "C09" => c09::run(&args, &mut rep),
         "C10" | "C11" => c10::run(&args, &mut rep),
+        "C12" => c12::run(&args, &mut rep),
         "C15" => c15::run(&args, &mut rep),
         "C16" => c16::run(&args, &mut rep),
         "C18" => c18::run(&args, &mut rep),
